@@ -2,6 +2,12 @@
 
 package quickfix
 
+import (
+	"time"
+
+	"github.com/quickfixgo/quickfix/internal"
+)
+
 func init() {
 	verifRegister("C07_seqreset", VerifHarness_C07_seqreset)
 	verifRegister("C07_logon", VerifHarness_C07_logon)
@@ -264,4 +270,70 @@ func VerifHarness_C07_continuity() {
 	verifAssert(r.st.NextSenderMsgSeqNum() == expectN, "outbound-counter-unchanged-except-own-logon")
 	msgs, _ := r.st.GetMessages(1, 1)
 	verifAssert(len(msgs) == 1 && string(msgs[0]) == "old", "stored-messages-unchanged")
+}
+
+func init() { verifRegister("C07_window", VerifHarness_C07_window) }
+
+func c07Instant(name string) time.Time {
+	d := ndInt(name+".day", 0, 13)
+	h := ndInt(name+".h", 0, 23)
+	m := ndInt(name+".m", 0, 59)
+	s := ndInt(name+".s", 0, 59)
+	return time.Date(2024, time.January, 14+d, h, m, s, 0, time.UTC)
+}
+
+// C07_window: with a session schedule configured the engine looks at the clock on every event. While the store was
+// created in the session window that is still open, nothing is reset (counters and messages stay); when the current
+// instant lies in another window the numbering starts again at 1; outside every window the session is not in session
+// time and the counters are left alone. The window arithmetic itself is C18's subject: IsInRange / IsInSameRange are
+// taken as given here, what is checked is how CheckSessionTime uses them (which instants, which order, when).
+func VerifHarness_C07_window() {
+	r := verifNewSession(ndBool("initiator"), BeginStringFIX42)
+	T := ndInt("T", 2, 40)
+	N := ndInt("N", 2, 40)
+	r.setCounters(T, N)
+	r.st.SaveMessage(1, []byte("old"))
+	tod := func(n string) internal.TimeOfDay {
+		return internal.NewTimeOfDay(ndInt(n+".h", 0, 23), ndInt(n+".m", 0, 59), ndInt(n+".s", 0, 59))
+	}
+	var tr *internal.TimeRange
+	var err error
+	if ndBool("weekly-schedule") {
+		verifCase("weekly")
+		tr, err = internal.NewWeekRangeInLocation(tod("start"), tod("end"), time.Weekday(ndInt("startDay", 0, 6)), time.Weekday(ndInt("endDay", 0, 6)), time.UTC)
+	} else {
+		verifCase("daily")
+		tr, err = internal.NewTimeRangeInLocation(tod("start"), tod("end"), nil, time.UTC)
+	}
+	verifAssume(err == nil)
+	r.s.SessionTime = tr
+	created := c07Instant("created")
+	now := c07Instant("now")
+	verifAssume(!now.Before(created))
+	r.st.creationTime = created
+	if ndBool("connected") {
+		r.app.inLogon = true
+		r.s.State = inSession{}
+	} else {
+		r.s.State = latentState{}
+		r.s.messageOut = nil
+	}
+	inRange := tr.IsInRange(now)
+	same := tr.IsInSameRange(created, now)
+	r.s.CheckSessionTime(r.s, now)
+	T1, N1 := r.st.NextTargetMsgSeqNum(), r.st.NextSenderMsgSeqNum()
+	msgs, _ := r.st.GetMessages(1, 1)
+	switch {
+	case !inRange:
+		verifCase("outside-session-time")
+		verifAssert(verifStateKind(r.s.State) == stNotSessionTime, "window-outside-means-not-session-time")
+	case same:
+		verifCase("same-window")
+		verifAssert(T1 == T && (N1 == N), "window-same-session-keeps-the-counters")
+		verifAssert(len(msgs) == 1, "window-same-session-keeps-the-messages")
+		verifAssert(r.st.CreationTime().Equal(created), "window-same-session-keeps-the-creation-time")
+	default:
+		verifCase("new-window")
+		verifAssert(T1 == 1 && N1 == 1 && len(msgs) == 0, "window-new-session-starts-at-1")
+	}
 }
